@@ -182,7 +182,7 @@ func (s *Suite) Replay(h Harness, v gose.Violation) (string, bool) {
 	go func() { out, err = cmd.CombinedOutput(); close(done) }()
 	select {
 	case <-done:
-	case <-time.After(5 * time.Minute):
+	case <-time.After(replayLimit(v.Kind)):
 		cmd.Process.Kill()
 		return "native replay timed out (possible non-termination reproduced)", v.Kind == "budget"
 	}
@@ -192,11 +192,24 @@ func (s *Suite) Replay(h Harness, v gose.Violation) (string, bool) {
 		return txt, false
 	}
 	failed := err != nil && strings.Contains(o, "FAIL")
+	if v.Kind == "budget" {
+		// the native run finished: only a crash (e.g. stack exhaustion) confirms
+		return txt, failed && (strings.Contains(o, "stack overflow") || strings.Contains(o, "out of memory"))
+	}
 	if v.Kind == "assert" {
 		return txt, failed && strings.Contains(o, "VERIF-ASSERT: "+v.Msg)
 	}
 	// implicit obligation: any panic of the real code reproduces it
 	return txt, failed && strings.Contains(o, "panic")
+}
+
+// replayLimit: a candidate for non-termination is given 90 s natively (compile included); any
+// other replay five minutes.
+func replayLimit(kind string) time.Duration {
+	if kind == "budget" {
+		return 90 * time.Second
+	}
+	return 5 * time.Minute
 }
 
 func clip(s string, n int) string {
